@@ -11,6 +11,8 @@ RULE = ("1-4 arrays over the same set of 0-3 dims built from a base array: varia
         "dict; keys None / int / str; stack onto a new axis or concatenate along each axis by name or position; align x sort. "
         "class = (op, variant, n arrays, ndim, square, container, keys kind, align, sort, outcome); trivial = single 0-d input")
 ANCHORS = ["align.stack", "align.concatenate", "align._get_axes", "align._check_stack_args", "align._concatenate_axes"]
+# entry points the workload calls itself; the other anchors are helpers behind them (counted as evidence only)
+ANCHORS_REQUIRED = ["align.stack", "align.concatenate"]
 FLOORS = {"quick": {"evaluations": 2000, "distinct": 500, "outcome:refused-as-required": 150, "outcome:joined-checked": 800, "outcome:dimorder-cases": 100},
           "thorough": {"evaluations": 40000, "distinct": 1500}}
 VARIANTS = ['equal', 'equal', 'perm-labels', 'overlap', 'disjoint', 'dimorder', 'size1-differs', 'nested']
